@@ -21,14 +21,14 @@ enum Kind {
   K_ADD = 0, K_ROTATE, K_AUTOMORPHISM, K_NORMALIZE, K_DFT, K_DFT_IDFT, K_SVP_APPLY, K_VMP_APPLY, K_SMALL, K_BIG_NORMALIZE, K_NTT120_DFT_IDFT,
   K_REIM_FFT, K_REIM_IFFT, K_REIM_MUL, K_REIM_ADDMUL, K_FROM64, K_TO64, K_CPLX_FFT, K_Q120_NTT, K_Q120_BBB, K_REIM4_FROM_CPLX,
   NTABLE,
-  K_S_REIM_FFT = NTABLE, K_S_REIM_MUL, K_S_TO64, K_S_CPLX_FFT, K_S_R4_MUL, K_S_FROM_ZNX32, K_S_REIM_IFFT, K_S_CPLX_MUL,
+  K_S_REIM_FFT = NTABLE, K_S_REIM_MUL, K_S_TO64, K_S_CPLX_FFT, K_S_R4_MUL, K_S_FROM_ZNX32, K_S_REIM_IFFT, K_S_CPLX_MUL, K_S_TO_TNX32, K_S_FROM64,
   NKIND
 };
 static const char* KN[NKIND] = {"vec_znx_add", "vec_znx_rotate", "vec_znx_automorphism", "vec_znx_normalize_base2k", "vec_znx_dft", "vec_znx_dft+idft", "svp_apply_dft",
                                 "vmp_apply_dft", "znx_small_single_product", "vec_znx_big_normalize_base2k", "ntt120:vec_znx_dft+idft", "reim_fft", "reim_ifft",
                                 "reim_fftvec_mul", "reim_fftvec_addmul", "reim_from_znx64", "reim_to_znx64", "cplx_fft", "q120_ntt_bb_avx2", "q120_vec_mat1col_product_bbb",
                                 "reim4_from_cplx", "reim_fft_simple", "reim_fftvec_mul_simple", "reim_to_znx64_simple", "cplx_fft_simple", "reim4_fftvec_mul_simple",
-                                "cplx_from_znx32_simple", "reim_ifft_simple", "cplx_fftvec_mul_simple"};
+                                "cplx_from_znx32_simple", "reim_ifft_simple", "cplx_fftvec_mul_simple", "cplx_to_tnx32_simple", "reim_from_znx64_simple"};
 
 struct Shared {
   uint64_t n, m;
@@ -121,7 +121,10 @@ static std::vector<uint8_t> run_call(int kind, uint64_t dseed) {
     case K_FROM64: { int64_t* x = ints(2 * m, 49); double* o = (double*)xalloc(2 * m * 8); reim_from_znx64(S.from64, o, x); grab(o, 2 * m * 8); free(x); free(o); break; }
     case K_TO64: case K_S_TO64: {
       double* x = dbls(2 * m); int64_t* o = (int64_t*)xalloc(2 * m * 8);
-      if (kind == K_TO64) reim_to_znx64(S.to64, o, x); else reim_to_znx64_simple(m, 2.0, 50, o, x);
+      // the *_simple cache is keyed on (m, divisor, log2bound): threads use DIFFERENT parameters on the same dimension
+      const double dv = std::ldexp(1.0, (int)(dseed % 5));
+      const uint32_t lb = (dseed >> 8) & 1 ? 50 : 63;
+      if (kind == K_TO64) reim_to_znx64(S.to64, o, x); else reim_to_znx64_simple(m, dv, lb, o, x);
       grab(o, 2 * m * 8); free(x); free(o); break;
     }
     case K_Q120_NTT: { uint64_t* x = (uint64_t*)xalloc(n * 32); for (size_t i = 0; i < 4 * n; ++i) x[i] = r.next(); q120_ntt_bb_avx2(S.qntt, (q120b*)x); grab(x, n * 32); free(x); break; }
@@ -133,6 +136,16 @@ static std::vector<uint8_t> run_call(int kind, uint64_t dseed) {
       grab(o, 32); free(x); free(y); free(o); break;
     }
     case K_REIM4_FROM_CPLX: { uint64_t mm = m < 4 ? 4 : m; double* x = dbls(2 * mm); double* o = (double*)xalloc(2 * mm * 8); reim4_from_cplx(S.r4fc, o, x); grab(o, 2 * mm * 8); free(x); free(o); break; }
+    case K_S_TO_TNX32: {
+      const double dv = std::ldexp(1.0, (int)(dseed % 7) - 2);
+      const uint32_t ovh = (dseed >> 8) % 19;
+      double* x = (double*)xalloc(2 * m * 8);
+      for (size_t i = 0; i < 2 * m; ++i) x[i] = r.sunit() * dv * std::ldexp(1.0, (int)ovh) * 0.99;
+      int32_t* o = (int32_t*)xalloc(2 * m * 4);
+      cplx_to_tnx32_simple(m, dv, ovh, o, x);
+      grab(o, 2 * m * 4); free(x); free(o); break;
+    }
+    case K_S_FROM64: { int64_t* x = ints(2 * m, 49); double* o = (double*)xalloc(2 * m * 8); reim_from_znx64_simple(m, (uint32_t)(dseed % 51), o, x); grab(o, 2 * m * 8); free(x); free(o); break; }
     case K_S_FROM_ZNX32: { int32_t* x = (int32_t*)xalloc(2 * m * 4); for (size_t i = 0; i < 2 * m; ++i) x[i] = (int32_t)r.next(); double* o = (double*)xalloc(2 * m * 8); cplx_from_znx32_simple(m, o, x); grab(o, 2 * m * 8); free(x); free(o); break; }
   }
   return out;
